@@ -687,6 +687,10 @@ class C11(core.Check):
                 c = dict(case)
                 c["rle"] = l[:i] + l[i + 1:]
                 yield c
+        if case["k"] == "widths" and case["hi"] - case["lo"] > 1:
+            mid = (case["lo"] + case["hi"]) // 2
+            yield {"k": "widths", "lo": case["lo"], "hi": mid}
+            yield {"k": "widths", "lo": mid, "hi": case["hi"]}
 
     # ------------------------------------------------------------------ generators
     POOL = ALPHA + [ord("z"), 0x3000, 0xFF21, 0x200B, 0x0300, 0x20DD, 0xAC00, 0x1F1E6, 0x7F, 0x09, 0xA9, 0x3042, 0x30A2,
@@ -788,10 +792,6 @@ class C11(core.Check):
 
     def cases(self, rng, tier):
         quick = tier == "quick"
-        # every code point individually
-        step = 8192
-        for lo in range(0, 0x110000, step):
-            yield {"k": "widths", "lo": lo, "hi": lo + step}
         # exhaustive strings over the 8-class alphabet
         nmax = 3 if quick else 4
         for n in range(0, nmax + 1):
@@ -812,6 +812,10 @@ class C11(core.Check):
             for n in range(0, 3):
                 for tup in itertools.product([ord("a"), ord("@"), 0x4E16, 0x4E00, 0x2500, 0x3042], repeat=n):
                     yield {"k": "text", "mode": "bytes", "enc": e, "s": list(tup), "cols": 5}
+        # every code point individually
+        step = 8192
+        for lo in range(0, 0x110000, step):
+            yield {"k": "widths", "lo": lo, "hi": lo + step}
         yield from self.raw_cases(rng, 400 if quick else 4000)
         yield from self.ate_cases(rng, tier)
         yield from self.rle_cases(rng, 1500 if quick else 15000)
